@@ -4,6 +4,7 @@ import (
 	"bytes"
 	"encoding/json"
 	"fmt"
+	"io"
 	"math/rand"
 	"net"
 	"os"
@@ -12,8 +13,10 @@ import (
 	"strings"
 	"syscall"
 	"time"
+	"unsafe"
 
 	"github.com/insomniacslk/dhcp/dhcpv4"
+	"github.com/insomniacslk/dhcp/dhcpv6"
 
 	"verif/internal/fw"
 	"verif/internal/model"
@@ -58,14 +61,56 @@ func (s *wireSrv) log() string {
 // startSrv starts the binary on conf (optionally behind a wrapper command) and waits until every
 // "file:hexport" in ports is bound. state is "ready", "exited" or "timeout".
 func (w *wireRun) startSrv(dir, name, conf string, wrapper []string, ports []string, wait time.Duration, during func()) (*wireSrv, string) {
+	return w.startSrvOpt(dir, name, conf, wrapper, ports, wait, during, "warning", false)
+}
+
+// openPTY returns the two ends of a fresh pseudo-terminal.
+func openPTY() (master, slave *os.File, err error) {
+	master, err = os.OpenFile("/dev/ptmx", os.O_RDWR, 0)
+	if err != nil {
+		return nil, nil, err
+	}
+	var unlock int32
+	if _, _, e := syscall.Syscall(syscall.SYS_IOCTL, master.Fd(), syscall.TIOCSPTLCK, uintptr(unsafe.Pointer(&unlock))); e != 0 {
+		master.Close()
+		return nil, nil, e
+	}
+	var n uint32
+	if _, _, e := syscall.Syscall(syscall.SYS_IOCTL, master.Fd(), syscall.TIOCGPTN, uintptr(unsafe.Pointer(&n))); e != 0 {
+		master.Close()
+		return nil, nil, e
+	}
+	slave, err = os.OpenFile(fmt.Sprintf("/dev/pts/%d", n), os.O_RDWR|syscall.O_NOCTTY, 0)
+	if err != nil {
+		master.Close()
+		return nil, nil, err
+	}
+	return master, slave, nil
+}
+
+func (w *wireRun) startSrvOpt(dir, name, conf string, wrapper []string, ports []string, wait time.Duration, during func(), loglevel string, tty bool) (*wireSrv, string) {
 	bin := os.Getenv("VERIF_COREDHCP_BIN")
 	cf := filepath.Join(dir, name+".yml")
 	os.WriteFile(cf, []byte(conf), 0o644)
 	s := &wireSrv{logp: filepath.Join(dir, name+".log"), exited: make(chan error, 1)}
 	s.logf, _ = os.Create(s.logp)
-	argv := append(append([]string{}, wrapper...), bin, "-c", cf, "-L", "warning")
+	argv := append(append([]string{}, wrapper...), bin, "-c", cf, "-L", loglevel)
 	s.cmd = exec.Command(argv[0], argv[1:]...)
 	s.cmd.Stdout, s.cmd.Stderr = s.logf, s.logf
+	if tty {
+		// the server's stdout/stderr are a terminal, as when an operator starts it by hand (or docker run -t)
+		master, slave, err := openPTY()
+		if err != nil {
+			s.logf.Close()
+			return nil, "no pseudo-terminal: " + err.Error()
+		}
+		s.cmd.Stdout, s.cmd.Stderr, s.cmd.Stdin = slave, slave, slave
+		go func() { // what the terminal shows goes to the log file
+			io.Copy(s.logf, master)
+			master.Close()
+		}()
+		defer slave.Close()
+	}
 	s.cmd.Dir = dir
 	if err := s.cmd.Start(); err != nil {
 		s.logf.Close()
@@ -487,6 +532,184 @@ server6:
 		s.stop()
 	}
 
+	// helper: one DHCPv6 message from the link-local client fe80::aa:5<k> on ve1 to the server's link-local
+	// address (unicast) or to ff02::1:2; returns the prefixes of the reply's IA_PDs (nil = no reply)
+	solicit6 := func(k int, typ byte, multicast bool) ([]string, bool) {
+		cmac := []byte{0x02, 0xaa, 0x00, 0x00, 0x00, 0x50 + byte(k)}
+		var src16, dst16 [16]byte
+		copy(src16[:], net.ParseIP(fmt.Sprintf("fe80::aa:%x", 0x50+k)).To16())
+		dmac := w.ve0mac
+		if multicast {
+			copy(dst16[:], net.ParseIP("ff02::1:2").To16())
+			dmac = []byte{0x33, 0x33, 0x00, 0x01, 0x00, 0x02}
+		} else if ll := w.llOf("ve0"); ll != nil {
+			copy(dst16[:], ll.To16())
+		} else {
+			return nil, false
+		}
+		w.xid++
+		opts := []pkt.Opt6{pkt.O6(pkt.OptClientID6, pkt.DUIDLL(cmac)), pkt.IAPD(1, 0, 0, nil)}
+		if typ == 3 {
+			opts = append(opts, pkt.O6(pkt.OptServerID6, pkt.DUIDLL([]byte{0x00, 0xde, 0xad, 0xbe, 0xef, 0x00})))
+		}
+		msg := pkt.Msg6(typ, w.xid&0xffffff, opts)
+		obs := w.exchange("ve1", pkt.BuildFrame6(cmac, dmac, src16, dst16, 546, 547, msg), 500*time.Millisecond)
+		for i := range obs {
+			if obs[i].f6 == nil {
+				continue
+			}
+			d, err := dhcpv6.FromBytes(obs[i].f6.Payload)
+			if err != nil {
+				return nil, true
+			}
+			m, err := d.GetInnerMessage()
+			if err != nil {
+				return nil, true
+			}
+			var out []string
+			for _, pd := range decodeRepPDs(m) {
+				for _, p := range pd.Prefixes {
+					out = append(out, p.String())
+				}
+			}
+			return out, true
+		}
+		return nil, false
+	}
+	dual := func(listen4, listen6 string) string {
+		l4, l6 := "", ""
+		if listen4 != "" {
+			l4 = "  listen: " + listen4 + "\n"
+		}
+		if listen6 != "" {
+			l6 = "  listen: " + listen6 + "\n"
+		}
+		return fmt.Sprintf("server6:\n%s  plugins:\n    - server_id: LL 00:de:ad:be:ef:00\n    - prefix: 2001:db8:aa00::/56 64\n    - dns: 2001:db8::53\nserver4:\n%s  plugins:\n    - server_id: 10.77.0.1\n    - range: %s/leases-%%s.db 10.77.0.100 10.77.0.180 60s\n    - netmask: 255.255.255.0\n    - router: 10.77.0.1\n", l6, l4, dir)
+	}
+
+	// ------------------------------------------------------------------ no listen keys at all (the defaults)
+	{
+		name := "real binary, dual-stack, no listen keys (DHCPv6: one multicast listener per interface + ff05::1:3, DHCPv4: one wildcard listener)"
+		w.varServerID = []byte{10, 77, 0, 1}
+		s, state := w.startSrvOpt(dir, "deflisten", fmt.Sprintf(dual("", ""), "deflisten"), nil, []string{"/proc/net/udp:0043", "/proc/net/udp6:0223"}, 10*time.Second, nil, "warning", false)
+		if state != "ready" {
+			if s != nil {
+				s.stop()
+			}
+			ctx.Inconclusive("wire/default-listen: the server did not come up (%s)", state)
+			return
+		}
+		for _, link := range []string{"ve1", "vf1"} {
+			mac := []byte{0x02, 0xcd, byte(w.rng.Intn(256)), byte(w.rng.Intn(256)), 0, byte(w.rng.Intn(256))}
+			for _, bf := range []uint16{0x8000, 0} {
+				w.xid++
+				p := pkt.Request4(0x70000+w.xid, mac, 1, pkt.O4(55, 1, 3))
+				p.Flags = bf
+				req := p.Bytes()
+				obs := w.exchange(link, pkt.BuildFrame4(mac, bcast, [4]byte{}, [4]byte{255, 255, 255, 255}, 68, 67, req), 500*time.Millisecond)
+				_, o := w.judgeVariant4(name, req, obs, fmt.Sprintf("DISCOVER (flags %#x) on %s", bf, link))
+				if w.srvDied(s, name, "a DISCOVER", req) {
+					return
+				}
+				if o == nil {
+					ctx.Viol("C15", "wire:no-reply", "%s: a well-formed DISCOVER (flags %#x) on %s got no reply on either link", name, bf, link)
+				} else if o.link != link {
+					ctx.Viol("C15", "wire:wrong-link", "%s: the reply to a DISCOVER (flags %#x) received on %s left on the link of %s", name, bf, link, o.link)
+				} else {
+					ctx.Count("wire.default_listen.replies_on_arrival_link", 1)
+				}
+			}
+		}
+		s.stop()
+	}
+
+	// ------------------------------------------------------------------ started by hand: stdio on a terminal, -L debug
+	{
+		name := "real binary, dual-stack, stdout/stderr on a terminal, log level debug"
+		s, state := w.startSrvOpt(dir, "tty", fmt.Sprintf(dual("['0.0.0.0']", "['[::]']"), "tty"), nil, []string{"/proc/net/udp:0043", "/proc/net/udp6:0223"}, 10*time.Second, nil, "debug", true)
+		if state != "ready" {
+			if s != nil {
+				s.stop()
+			}
+			if strings.HasPrefix(state, "no pseudo-terminal") {
+				ctx.Count("wire.tty.skipped_no_pty", 1)
+			} else {
+				ctx.Inconclusive("wire/tty: the server did not come up (%s)", state)
+				return
+			}
+		} else {
+			for k := 0; k < 3; k++ {
+				pfx, answered := solicit6(k, 1, false)
+				if w.srvDied(s, name, "a SOLICIT with an IA_PD", nil) {
+					return
+				}
+				if !answered || len(pfx) == 0 {
+					ctx.Viol("C01", "wire:no-reply", "%s: a SOLICIT with an IA_PD from fe80::aa:%x got no prefix (answered=%v)", name, 0x50+k, answered)
+				} else {
+					ctx.Count("wire.tty.prefixes_delegated", 1)
+				}
+			}
+			mac := []byte{0x02, 0xce, byte(w.rng.Intn(256)), byte(w.rng.Intn(256)), 0, 1}
+			w.xid++
+			p := pkt.Request4(0x80000+w.xid, mac, 1, pkt.O4(55, 1, 3))
+			p.Flags = 0x8000
+			obs := w.exchange("ve1", pkt.BuildFrame4(mac, bcast, [4]byte{}, [4]byte{255, 255, 255, 255}, 68, 67, p.Bytes()), 500*time.Millisecond)
+			w.judgeVariant4(name, p.Bytes(), obs, "broadcast-flag DISCOVER")
+			if w.srvDied(s, name, "a DISCOVER", p.Bytes()) {
+				return
+			}
+			s.stop()
+		}
+	}
+
+	// ------------------------------------------------------------------ SIGHUP while clients hold prefixes
+	{
+		name := "real binary, dual-stack, sent SIGHUP after prefixes were delegated"
+		s, state := w.startSrvOpt(dir, "hup", fmt.Sprintf(dual("['0.0.0.0']", "['[::]']"), "hup"), nil, []string{"/proc/net/udp:0043", "/proc/net/udp6:0223"}, 10*time.Second, nil, "warning", false)
+		if state != "ready" {
+			if s != nil {
+				s.stop()
+			}
+			ctx.Inconclusive("wire/sighup: the server did not come up (%s)", state)
+			return
+		}
+		held := map[int][]string{}
+		for k := 0; k < 3; k++ {
+			if pfx, ok := solicit6(k, 3, false); ok && len(pfx) > 0 {
+				held[k] = pfx
+			}
+		}
+		if w.srvDied(s, name, "REQUESTs with IA_PD", nil) {
+			return
+		}
+		syscall.Kill(s.cmd.Process.Pid, syscall.SIGHUP)
+		time.Sleep(1500 * time.Millisecond)
+		select {
+		case err := <-s.exited:
+			s.exited <- err
+			ctx.Count("wire.sighup.ended_the_server", 1) // its run is over: nothing more to keep
+			s.logf.Close()
+		default:
+			// still the same process: what it told its clients still holds
+			for i := 0; i < 100 && !portBound("/proc/net/udp6", "0223"); i++ {
+				time.Sleep(50 * time.Millisecond)
+			}
+			ctx.Count("wire.sighup.server_kept_running", 1)
+			for _, k := range []int{2, 1, 0} {
+				want := held[k]
+				if len(want) == 0 {
+					continue
+				}
+				got, answered := solicit6(k, 3, false)
+				ctx.Eval("C09", 1)
+				if !answered || strings.Join(got, " ") != strings.Join(want, " ") {
+					ctx.Viol("C09", "wire:prefix-forgotten-while-running", "%s (process %d is still running): client fe80::aa:%x was told it holds %v; its hint-less REQUEST is now answered with %v (answered=%v)", name, s.cmd.Process.Pid, 0x50+k, want, got, answered)
+				}
+			}
+			s.stop()
+		}
+	}
+
 	// ------------------------------------------------------------------ listen address assigned late
 	{
 		conf := fmt.Sprintf(`server4:
@@ -596,7 +819,7 @@ func (wirevarEngine) Run(ctx *fw.Ctx, cs any) {
 		}
 	}()
 	w.variants(dir)
-	for _, pr := range []string{"C01", "C11", "C12", "C13", "C14", "C15", "C17"} {
+	for _, pr := range []string{"C01", "C09", "C11", "C12", "C13", "C14", "C15", "C17"} {
 		ctx.Nontrivial(pr, fmt.Sprintf("wirevar/%d", c.Seed))
 		if ctx.WantSample(pr) {
 			ctx.Sample(pr, map[string]any{"engine": "wirevar", "variants": "alt-port+long-options, no-CAP_NET_RAW, late-listen-address"})
